@@ -104,3 +104,24 @@ CASES += [
       "        return self.convert_energy_2_current_u(\n                               self.widths[transition[0], transition[1]])",
       "        wd = Manager().convert_energy_2_current_u(self.widths[transition[0], transition[1]])\n        return wd"),
 ]
+
+CASES += [
+    m("converted coupling written back into the caller's record (the repaired defect)", "C05-U11", MOL,
+      "        factor = [val, list(factor[1])]", "        factor[0] = val"),
+    m("transition width setter rescales the submitted array in place", "C05-U11", MOL,
+      "        cwidth = Manager().convert_energy_2_internal_u(width)\n", "        cwidth = Manager().convert_energy_2_internal_u(width)\n        transition[0] += 0\n"),
+    t("record rebuilt as a tuple-to-list copy", MOL,
+      "        factor = [val, list(factor[1])]", "        factor = [val] + [list(factor[1])]"),
+]
+
+CASES += [
+    m("reciprocal wavelengths stored with the element type of the input (the repaired defect)", "C05-U4", M,
+      "                ret = numpy.zeros(val.shape,\n                                  dtype=numpy.result_type(val.dtype, float))",
+      "                ret = numpy.zeros(val.shape, dtype=val.dtype)", 2),
+    m("array path of the wavelength branch forgets the factor", "C05-U4", M,
+      "                return ret/cfact\n            except:            \n                return (1.0/val)/cfact\n            #if val == 0.0:",
+      "                return ret\n            except:            \n                return (1.0/val)/cfact\n            #if val == 0.0:"),
+    t("reciprocal wavelengths stored as floats", M,
+      "                ret = numpy.zeros(val.shape,\n                                  dtype=numpy.result_type(val.dtype, float))",
+      "                ret = numpy.zeros(val.shape, dtype=numpy.float64)", 2),
+]
